@@ -34,6 +34,7 @@ class ClientRun:
         self.handler_cls = handler_cls
         self.auto_reconnect_on_timeout = False
         self.reconnect_in_on_close = False
+        self.on_close_sleep_ms = 0
         self.current = -1
 
     def ev(self, e):
@@ -65,6 +66,8 @@ class ClientRun:
                 if R.reconnect_in_on_close:
                     # the application reacts to the loss by reconnecting right here (as tests/rsocket/test_connection_lost.py does)
                     await rsocket.reconnect()
+                    if R.on_close_sleep_ms:
+                        await asyncio.sleep(R.on_close_sleep_ms / 1000.0)      # ... and goes on with some slow clean-up of its own
 
         for i, t in enumerate(self.transports):
             def on_sent(entry, i=i):
